@@ -175,31 +175,33 @@ Proof.
        try match goal with H : needA (pcof _ ?u) = Some ?b |- _ => pose proof (HexAu _ H) end;
        try (intuition (discriminate || congruence || eauto); fail)).
   (* F_wakeT *)
-  all: try (intros u Hin Htr; gsimpl; try discriminate; try contradiction; try congruence;
-       pose proof (HOT t) as HOTt; rewrite Hp in HOTt; cbn in HOTt;
-       pose proof (HFT t) as HFTt; rewrite Hp in HFTt; cbn in HFTt;
-       try (specialize (HFTt _ eq_refl); congruence);
-       try (exists t; split; [apply HOTt; reflexivity | rewrite (pcof_upd _ _ _ _ _ Hl), Nat.eqb_refl; reflexivity]; fail);
-       try (apply In_rem in Hin; destruct Hin as [Hin _]);
-       assert (exists a, mT g = Some a /\ is_Tnotify (pcof ls a) = true) as [a [Ha Hn]]
-         by (apply (HWT u Hin); first [exact Htr | reflexivity | congruence]);
-       try congruence;
-       try (specialize (HOTt eq_refl));
-       exists a; rewrite (pcof_upd _ _ _ _ _ Hl); cbn [at_];
-       destruct (Nat.eqb_spec a t) as [->|Hne]; [rewrite Hp in Hn; cbn in Hn; try discriminate | ];
-       split; auto; congruence).
+  all: try (intros u Hin Htr; gsimpl;
+       first [ discriminate | contradiction | congruence
+       | pose proof (HOT t) as HOTt; rewrite Hp in HOTt; cbn in HOTt;
+         pose proof (HFT t) as HFTt; rewrite Hp in HFTt; cbn in HFTt;
+         first [ specialize (HFTt _ eq_refl); congruence
+         | exists t; split; [apply HOTt; reflexivity | rewrite (pcof_upd _ _ _ _ _ Hl), Nat.eqb_refl; reflexivity]
+         | try (apply In_rem in Hin; destruct Hin as [Hin _]);
+           assert (exists a, mT g = Some a /\ is_Tnotify (pcof ls a) = true) as [a [Ha Hn]]
+             by (apply (HWT u Hin); first [exact Htr | reflexivity | congruence]);
+           first [ congruence
+           | try (specialize (HOTt eq_refl));
+             exists a; rewrite (pcof_upd _ _ _ _ _ Hl); cbn [at_];
+             destruct (Nat.eqb_spec a t) as [->|Hne];
+             [ rewrite Hp in Hn; cbn in Hn; first [discriminate | split; auto; congruence] | split; auto; congruence ] ] ] ]).
   (* F_wakeA *)
-  all: try (intros u Hin Htr; gsimpl; try discriminate; try contradiction; try congruence;
-       pose proof (HOA t) as HOAt; rewrite Hp in HOAt; cbn in HOAt;
-       pose proof (HFA t) as HFAt; rewrite Hp in HFAt; cbn in HFAt;
-       try (specialize (HFAt _ eq_refl); congruence);
-       try (exists t; split; [apply HOAt; reflexivity | rewrite (pcof_upd _ _ _ _ _ Hl), Nat.eqb_refl; reflexivity]; fail);
-       try (apply In_rem in Hin; destruct Hin as [Hin _]);
-       assert (exists a, mA g = Some a /\ is_Anotify (pcof ls a) = true) as [a [Ha Hn]]
-         by (apply (HWA u Hin); first [exact Htr | reflexivity | congruence]);
-       try congruence;
-       try (specialize (HOAt eq_refl));
-       exists a; rewrite (pcof_upd _ _ _ _ _ Hl); cbn [at_];
-       destruct (Nat.eqb_spec a t) as [->|Hne]; [rewrite Hp in Hn; cbn in Hn; try discriminate | ];
-       split; auto; congruence).
+  all: try (intros u Hin Htr; gsimpl;
+       first [ discriminate | contradiction | congruence
+       | pose proof (HOA t) as HOAt; rewrite Hp in HOAt; cbn in HOAt;
+         pose proof (HFA t) as HFAt; rewrite Hp in HFAt; cbn in HFAt;
+         first [ specialize (HFAt _ eq_refl); congruence
+         | exists t; split; [apply HOAt; reflexivity | rewrite (pcof_upd _ _ _ _ _ Hl), Nat.eqb_refl; reflexivity]
+         | try (apply In_rem in Hin; destruct Hin as [Hin _]);
+           assert (exists a, mA g = Some a /\ is_Anotify (pcof ls a) = true) as [a [Ha Hn]]
+             by (apply (HWA u Hin); first [exact Htr | reflexivity | congruence]);
+           first [ congruence
+           | try (specialize (HOAt eq_refl));
+             exists a; rewrite (pcof_upd _ _ _ _ _ Hl); cbn [at_];
+             destruct (Nat.eqb_spec a t) as [->|Hne];
+             [ rewrite Hp in Hn; cbn in Hn; first [discriminate | split; auto; congruence] | split; auto; congruence ] ] ] ]).
   all: idtac "REMAINING". Show. Abort.
